@@ -431,6 +431,46 @@ func externals() map[string]ExtFn {
 		m.Assume(fmt.Sprintf("symbolic names do not contain %q", r))
 		return int64(-1)
 	}
+	// strings.Cut(s, sep): decided like IndexRune — the separator is looked for in the literal prefix; a symbolic part is assumed
+	// not to contain it (recorded), a hit after a symbolic part is undecided
+	e["strings.Cut"] = func(m *Machine, a []Value) Value {
+		s, sep := strArg(m, a[0]), concArg(m, a[1], "strings.Cut separator")
+		if c, ok := s.Concrete(); ok {
+			b, af, found := strings.Cut(c, sep)
+			return Tuple{Lit(b), Lit(af), found}
+		}
+		lead := leadingLit(s)
+		if i := strings.Index(lead, sep); i >= 0 {
+			return Tuple{Lit(lead[:i]), dropPrefix(s, i+len(sep)), true}
+		}
+		for _, p := range s.P {
+			if p.Hole == nil && sep != "" && strings.Contains(p.Lit, sep) {
+				panic(m.undecided("strings.Cut: separator after a symbolic part"))
+			}
+		}
+		m.Assume(fmt.Sprintf("symbolic names do not contain %q", sep))
+		return Tuple{s, Lit(""), false}
+	}
+	e["strings.CutPrefix"] = func(m *Machine, a []Value) Value {
+		has := e["strings.HasPrefix"](m, a).(bool)
+		if !has {
+			return Tuple{strArg(m, a[0]), false}
+		}
+		return Tuple{e["strings.TrimPrefix"](m, a), true}
+	}
+	e["strings.CutSuffix"] = func(m *Machine, a []Value) Value {
+		has := e["strings.HasSuffix"](m, a).(bool)
+		if !has {
+			return Tuple{strArg(m, a[0]), false}
+		}
+		return Tuple{e["strings.TrimSuffix"](m, a), true}
+	}
+	e["strings.IndexByte"] = func(m *Machine, a []Value) Value {
+		return e["strings.IndexRune"](m, []Value{a[0], a[1]})
+	}
+	e["strings.ContainsRune"] = func(m *Machine, a []Value) Value {
+		return e["strings.IndexRune"](m, a).(int64) >= 0
+	}
 	e["strings.Index"] = func(m *Machine, a []Value) Value {
 		return int64(strings.Index(concArg(m, a[0], "strings.Index"), concArg(m, a[1], "strings.Index")))
 	}
